@@ -387,8 +387,27 @@ fn step(chain: &Chain, bytes: &[u8], op: Op, step: usize, acc: &mut Acc) -> Step
     match (&expect, applied) {
         (Expect::OutOfRange(cls), Err(_)) => {
             let _ = crate::sim::take_last_panic();
-            acc.c(&format!("{name}.{cls}.panics"));
-            Step::AllowedPanic
+            // the panic is allowed; the value that survives it (a caller may catch the unwind, a `Drop` may look at
+            // it) must still be a value: its reported length agrees with what it holds, no empty chunk
+            let judged = catch_unwind(AssertUnwindSafe(|| {
+                let cat: Vec<u8> = AsRef::<[CowBytes<'static>]>::as_ref(&c).iter().flat_map(|x| x.as_ref().iter().copied()).collect();
+                observe(&c, &cat)
+            }));
+            match judged {
+                Ok(None) => {
+                    acc.c(&format!("{name}.{cls}.panics"));
+                    Step::AllowedPanic
+                }
+                Ok(Some((kind, d))) => {
+                    acc.c(&format!("{name}.{cls}.PANIC-CORRUPTS"));
+                    Step::Bad(format!("after-panic.{kind}.{name}.{cls}"), format!("{name} with an out-of-range argument ({cls}) panicked and left a value that disagrees with itself: {d}"))
+                }
+                Err(e) => {
+                    let _ = crate::sim::take_last_panic();
+                    acc.c(&format!("{name}.{cls}.PANIC-CORRUPTS"));
+                    Step::Bad(format!("after-panic.invariant-panic.{name}.{cls}"), format!("{name} with an out-of-range argument ({cls}) panicked and an accessor of the surviving value panics: {}", panic_text(&*e)))
+                }
+            }
         }
         (Expect::Ok { .. }, Err(e)) => {
             acc.c(&format!("{name}.in-range.PANICS"));
@@ -1009,7 +1028,7 @@ pub fn run(args: &Args) -> Report {
     rep.evaluations = total.nodes;
     rep.distinct_nontrivial = total.nodes;
     rep.exhaustive = true;
-    rep.rule = "LongChain: every sequence of operations up to the depth bound from the empty chain and three pre-built chains; at each state the alphabet is push/insert of segments of 0..=3 bytes x {Temporary, Static} at every chunk index 0..=#chunks+1, pop, remove at every index 0..=#chunks+1, split_to/split_off/truncate/advance at EVERY byte position 0..=len+1, clear; after every operation len/remaining/is_empty/chunks/chunk()/two drains of a clone and the returned segment or half are compared with a Vec<u8>; a sequence ends at an allowed panic or at its first violation. Each evaluation is one (start, operation sequence), distinct by construction. CowBytes: every byte string up to the length bound over {00,61,ff} in five constructions through every accessor and every mutator index 0..=len+1; all ordered pairs of strings x 3x3 constructions through eq/partial_cmp/hash".into();
+    rep.rule = "LongChain: every sequence of operations up to the depth bound from the empty chain and three pre-built chains; at each state the alphabet is push/insert of segments of 0..=3 bytes x {Temporary, Static} at every chunk index 0..=#chunks+1, pop, remove at every index 0..=#chunks+1, split_to/split_off/truncate/advance at EVERY byte position 0..=len+1, clear; after every operation len/remaining/is_empty/chunks/chunk()/two drains of a clone and the returned segment or half are compared with a Vec<u8>; a sequence ends at an allowed panic (after which the surviving value must still agree with itself: reported length = bytes held, no empty chunk) or at its first violation. Each evaluation is one (start, operation sequence), distinct by construction. CowBytes: every byte string up to the length bound over {00,61,ff} in five constructions through every accessor and every mutator index 0..=len+1; all ordered pairs of strings x 3x3 constructions through eq/partial_cmp/hash".into();
     rep.bounds.insert("chain_depth_from_empty".into(), json!(depth_empty));
     rep.bounds.insert("chain_depth_from_prebuilt".into(), json!(depth_built));
     rep.bounds.insert("chain_start_states".into(), json!(N_STARTS));
